@@ -1808,6 +1808,14 @@ class CallMixin(object):
             if name == 'get':
                 k = d[0]
                 if isinstance(k, PyStr): return [(r.d.get(k.s, args[1] if len(args) > 1 else NONE), st)]
+                if isinstance(k, Sc) and k.py == 'str' and all(isinstance(x, str) for x in r.d):
+                    # a keyword table looked up with a symbolic key: one path per entry, one for "none of them"
+                    outs_ = []; none_ = []
+                    for kk, vv in r.d.items():
+                        s_k = st.copy(); s_k.pc.append(k.z == z3.StringVal(kk)); outs_.append((vv, s_k)); none_.append(k.z != z3.StringVal(kk))
+                    s_n = st.copy(); s_n.pc += none_
+                    outs_.append((args[1] if len(args) > 1 else NONE, s_n))
+                    return outs_
             if name == 'keys': return [(Tup([PyStr(k) for k in r.d]), st)]
             if name == 'copy': return [(st.new_cell(PyDict(r.d)), st)]
         if isinstance(r, Obj) and getattr(self.reg.classes.get(r.cls), 'external', False):
@@ -1843,6 +1851,9 @@ class CallMixin(object):
         return unwrap(v)
 
     def format_brace(self, template, args, kw, st):
+        if template == '{}' and len(args) == 1 and not kw:
+            a0 = self.deref(args[0], st)
+            if isinstance(a0, Sc) and a0.py == 'str': return a0          # "{}".format(s) is s for a string s
         t = parse_brace(template)
         vals = {}
         for k in t.keys():
